@@ -97,7 +97,7 @@ Section Rows.
   Proof.
     intros tbl a rec n m. rewrite get_row_str, <- list_contains_In.
     destruct (find_row f tbl n) as [r|]; [destruct (list_contains (effective a rec) (PStr n))|];
-      split; intro H; try discriminate; try (destruct H as [H1 H2]; discriminate).
+      split; intro H; try discriminate; try (destruct H; discriminate).
     - inversion H; subst. split; reflexivity.
     - destruct H as [H1 _]. inversion H1; reflexivity.
   Qed.
@@ -326,6 +326,34 @@ Proof.
     { apply gate_all_iff. eapply Forall2_imp; [|exact E2].
       intros x y. apply jwe_recipient_gate_iff; assumption. }
     rewrite G. simpl. apply jwe_zip_gate_iff in E3. rewrite E3. reflexivity.
+Qed.
+
+Lemma jwe_entry_class : forall w a r enc algs zip, w_jwe_def w = PNone ->
+  is_str enc = true -> Forall (fun n => is_str n = true) algs ->
+  match zip with Some z => is_str z = true | None => True end ->
+  (exists t, jwe_entry w (pv_of_allowed a) (opt_pv r) enc algs zip = Ok t) \/
+  jwe_entry w (pv_of_allowed a) (opt_pv r) enc algs zip = unsupported.
+Proof.
+  intros w a r enc algs zip D He Fa Hz. unfold jwe_entry.
+  rewrite jwe_select_spec by exact D. set (eff := spec_jwe_choice a r).
+  destruct enc as [| | | |se| | |]; try discriminate.
+  unfold jwe_get_enc.
+  destruct (get_row_else ee_name (w_enc w) eff (w_jwe_rec w) se) as [[m E]|E]; rewrite E; simpl;
+    [|right; reflexivity].
+  assert (G : (exists rows, gate_all (jwe_recipient_gate w (pv_of_allowed eff) (PStr se) zip) algs = Ok rows) \/
+              gate_all (jwe_recipient_gate w (pv_of_allowed eff) (PStr se) zip) algs = unsupported).
+  { apply gate_all_class. intros n I. rewrite Forall_forall in Fa. specialize (Fa n I).
+    destruct n; try discriminate. unfold jwe_recipient_gate, hdr_str. simpl.
+    assert (Z : match zip with Some z => if is_str z then Ok tt else Err EValue | None => Ok tt end = Ok tt).
+    { destruct zip as [z|]; [rewrite Hz|]; reflexivity. }
+    rewrite Z. simpl. unfold jwe_get_alg. apply get_row_else. }
+  destruct G as [[rows G]|G]; rewrite G; simpl; [|right; reflexivity].
+  destruct zip as [z|]; simpl.
+  - destruct z; try discriminate. unfold jwe_get_zip.
+    destruct (get_row_else ez_name (w_zip w) eff (w_jwe_rec w) s) as [[mz E2]|E2]; rewrite E2; simpl.
+    + left. eexists. reflexivity.
+    + right. reflexivity.
+  - left. eexists. reflexivity.
 Qed.
 
 (* ---------- gates come before any cryptographic result ---------- *)
@@ -714,3 +742,17 @@ Lemma instances :
   jws_verify_op good_sig w0 KPlain (PList [pname "none"]) None [pname "none"] = Err (EJose BadSignatureError) /\
   jws_verify_op good_sig w0 KPlain (PList [pname "HS512"]) None [pname "HS512"] = Ok tt.
 Proof. vm_compute. repeat split; try reflexivity; eexists; split; reflexivity || reflexivity. Qed.
+
+(* both algorithms= and registry= given: JWS uses the registry (the list is ignored),
+   JWE uses the non-empty list (the registry is ignored) *)
+Lemma both_given :
+  (forall w k a r, jws_entry_select w k a (Some r) = r) /\
+  (forall w a r, py_truth a = true -> jwe_select w a r = a) /\
+  (exists rows, jws_entry w0 KPlain (PList [pname "HS256"]) (Some (PList [pname "HS384"])) [pname "HS384"] = Ok rows) /\
+  runit (jwe_entry w0 (PList [pname "A192KW"; pname "A128GCM"]) (Some (PList [pname "A128KW"; pname "A128GCM"]))
+           (pname "A128GCM") [pname "A128KW"] None) = Err (EJose UnsupportedAlgorithmError).
+Proof.
+  split; [intros w k a r; destruct k as [|[|]]; reflexivity|].
+  split; [intros w a r H; unfold jwe_select; rewrite H; reflexivity|].
+  split; [eexists; vm_compute; reflexivity | vm_compute; reflexivity].
+Qed.
